@@ -293,7 +293,7 @@ def bounded_cases(tier, seed):
         if any(conf["harness"] == h and sorted(conf["threads"]) == sorted([a, b]) and conf["max_size"] == ms for h, a, b, ms in core):
             conf["two_in_quick"] = True
     for conf in confs:
-        for first in (0, 1):
+        for first in ((0,) if conf["threads"][0] == conf["threads"][-1] and len(conf["threads"]) == 2 else (0, 1)):   # symmetric: one start order
             base = dict({k_: v for k_, v in conf.items() if k_ != "two_in_quick"}, first=first)
             n = _steps(base) + 2
             yield dict(base, preempt=[])
@@ -307,7 +307,7 @@ def bounded_cases(tier, seed):
             elif conf.get("two_in_quick"):
                 # quick tier: two pre-emptions for a few core configurations (all pairs for the object-pool harness,
                 # every first point x every 8th second point for the pooled-client harness)
-                stride = 1 if conf["harness"] == "a" else 8
+                stride = 1 if conf["harness"] == "a" else 12
                 for p1 in range(1, n):
                     for p2 in range(p1 + 1 + (p1 % stride), n, stride):
                         yield dict(base, preempt=[p1, p2])
